@@ -279,13 +279,21 @@ let () =
              (String.concat " " (List.map string_of_int path)) info
          | OutOfFuel ->
            Printf.printf "lockstep %s %d %d INCONCLUSIVE fuel\n" vname sc (if bol then 1 else 0))
-      | L [A "rejtokens"; A which; sc; bol; inp; L pols] ->
+      | L [A "rejtokens"; A which; sc; bol; inp; L pols; L adj] ->
         let w = bytes_of inp in
         let pols = List.map policy_of pols in
         let pol r = match List.assoc_opt (int_of_n r) pols with Some p -> p | None -> RejNever in
         let fuel = nat_of_int (List.length w + 1) in
         let t = if which = "spec" then spec_rej_tokens fuel prog (n_of_int (ai sc)) pol (ab bol) w
-          else view_rej_tokens fuel (List.assoc which rtabs) (n_of_int (ai sc)) pol (ab bol) w in
+          else view_rej_tokens fuel (List.assoc which rtabs) (adj_of adj) (n_of_int (ai sc)) pol (ab bol) w in
+        Printf.printf "rejtokens %s %s\n" which (toks_str t)
+      | L [A "rejtokens_old"; A which; sc; bol; inp; L pols] ->
+        let w = bytes_of inp in
+        let pols = List.map policy_of pols in
+        let pol r = match List.assoc_opt (int_of_n r) pols with Some p -> p | None -> RejNever in
+        let fuel = nat_of_int (List.length w + 1) in
+        let t = if which = "spec" then spec_rej_tokens fuel prog (n_of_int (ai sc)) pol (ab bol) w
+          else view_rej_tokens fuel (List.assoc which rtabs) (fun _ -> None) (n_of_int (ai sc)) pol (ab bol) w in
         Printf.printf "rejtokens %s %s\n" which (toks_str t)
       | L [A "viewtokens_tc"; A vname; sc; bol; inp; L adj] ->
         let w = bytes_of inp in
@@ -304,11 +312,17 @@ let () =
         let w = bytes_of inp in
         let t = view_tokens (nat_of_int (List.length w + 1)) v (n_of_int (ai sc)) (ab bol) w in
         Printf.printf "viewtokens %s %s\n" vname (toks_str t)
+      | L [A "validate_o"; L owners; sc; bol; inp; L toks] ->
+        let w = bytes_of inp in
+        let otbl = List.map (function L [r; o] -> (ai r, ai o) | _ -> failwith "owner") owners in
+        let owner r = match List.assoc_opt (int_of_n r) otbl with Some o -> n_of_int o | None -> r in
+        let toks = List.map (function L [r; k] -> (n_of_int (ai r), nat_of_int (ai k)) | _ -> failwith "tok") toks in
+        Printf.printf "validate %s\n" (if validate_o prog owner (n_of_int (ai sc)) (ab bol) w toks then "OK" else "FAIL")
       | L [A "validate"; sc; bol; inp; L toks] ->
         let w = bytes_of inp in
         let toks = List.map (function L [r; k] -> (n_of_int (ai r), nat_of_int (ai k)) | _ -> failwith "tok") toks in
         Printf.printf "validate %s\n" (if validate prog (n_of_int (ai sc)) (ab bol) w toks then "OK" else "FAIL")
-      | L [A "stream"; fuel; L inputs] ->
+      | L [A ("stream" | "sessions" as which); fuel; L inputs] ->
         let f = field "stream_prog" c in
         let op_of = function
           | L [A "begin"; s] -> OBegin (n_of_int (ai s))
@@ -330,7 +344,15 @@ let () =
                    sp_acts = (fun r -> match List.assoc_opt (int_of_n r) acts with Some o -> o | None -> []);
                    sp_eof = (fun s -> List.assoc_opt (int_of_n s) eofs);
                    sp_lineno = ab (List.hd (field "lineno" f)) } in
-        let evs = sm_run (nat_of_int (ai fuel)) sp (sm_init (List.map bytes_of inputs)) in
+        let evs =
+          if which = "stream" then sm_run (nat_of_int (ai fuel)) sp (sm_init (List.map bytes_of inputs))
+          else begin
+            (* a list of sessions, each a list of sources chained by yywrap *)
+            let ss = List.map (fun s -> List.map bytes_of (items s)) inputs in
+            match ss with
+            | [] -> sm_run (nat_of_int (ai fuel)) sp (sm_init [])
+            | first :: posts -> sm_sessions (nat_of_int (ai fuel)) sp (sm_init first) posts
+          end in
         let fnv bs = List.fold_left (fun h b -> ((h lxor (int_of_n b)) * 16777619) land 0xFFFFFFFF) 2166136261 bs in
         List.iter (function
             | ETok (r, text, sc, line, bol) ->
@@ -343,6 +365,14 @@ let () =
             | EFatal k -> Printf.printf "F %d\n" (int_of_n k)
             | EStuck -> Printf.printf "S\n") evs;
         Printf.printf "END\n"
+      | L [A "wtokens"; A vname; sc; bol; L adj; L chunks] ->
+        let (v, _) = List.assoc vname views in
+        let chunks = List.map bytes_of chunks in
+        let total = List.fold_left (fun a c -> a + List.length c) 0 chunks in
+        let evs = wtokens v (adj_of adj) (nat_of_int (total + 2)) (z_of_int (ai sc - 1)) (ab bol) false [] chunks in
+        Printf.printf "wtokens %s\n" (String.concat " " (List.map (function
+            | WTok (r, h) -> Printf.sprintf "T:%d:%d" (int_of_n r) (int_of_nat h)
+            | WPull k -> Printf.sprintf "Q:%d" (int_of_nat k)) evs))
       | L [A "kinds"] ->
         Printf.printf "kinds %s\n" (String.concat " " (List.map (fun r ->
             match rule_kind r with
